@@ -130,7 +130,24 @@ func (st *State) load(p *PtrV) Val {
 		}
 		return v
 	}
-	return st.loadKey(p.Kind, p.Key, p.Base, p.Idx, p.Elem, nil)
+	v := st.loadKey(p.Kind, p.Key, p.Base, p.Idx, p.Elem, nil)
+	if p.Kind == PHeap && p.Idx != nil && isWireMessagePtr(p.Elem) {
+		if t, ok := v.(*Term); ok && t.Sort.Kind == SInt && len(freeBound(t)) == 0 {
+			st.vc.assume(st, Not(Eq(t, IntC(0))))
+			st.vc.used["protobuf: repeated message fields decoded from the wire contain no nil elements"] = true
+		}
+	}
+	return v
+}
+
+// isWireMessagePtr: pointer to a generated protobuf message type (package pbx).
+func isWireMessagePtr(t types.Type) bool {
+	pt, ok := under(t).(*types.Pointer)
+	if !ok {
+		return false
+	}
+	nt, ok := types.Unalias(pt.Elem()).(*types.Named)
+	return ok && nt.Obj().Pkg() != nil && strings.HasSuffix(nt.Obj().Pkg().Path(), "/pbx")
 }
 
 func (st *State) dimsOf(kind PtrKind, idx *Term) int {
